@@ -143,14 +143,17 @@ func Open(options Options) (*DB, error) {
 			for {
 				select {
 				case <-ticker.C:
-					if flushes == db.bytesWrite {
+					db.mu.RLock()
+					bytesWrite := db.bytesWrite
+					db.mu.RUnlock()
+					if flushes == bytesWrite {
 						continue
 					}
 					if err := db.Merge(); err != nil {
 						// 记录错误日志
 						fmt.Printf("failed to merge db: %v\n", err)
 					}
-					flushes = db.bytesWrite
+					flushes = bytesWrite
 				case <-db.closedChan:
 					return
 				}
@@ -354,11 +357,11 @@ func (db *DB) Close() error {
 
 // Sync 数据持久化
 func (db *DB) Sync() error {
+	db.mu.Lock()
+	defer db.mu.Unlock()
 	if db.activeFile == nil {
 		return nil
 	}
-	db.mu.Lock()
-	defer db.mu.Unlock()
 
 	// 仅持久化当前活跃文件
 	return db.activeFile.Sync()
